@@ -1,12 +1,711 @@
-// Package c16 checks property C16 (not built yet).
+// Package c16 checks property C16: types.Equal is LLVM type identity (an
+// equivalence that identifies identified structs by name and everything else
+// by structure, terminates on recursive types and is preserved by print+parse).
+//
+// (S) spec/TypesEq.tla: TLC checks the laws of the reference identity TypeEq.
+// (G) TLC generates type terms over three universes; (T) the real Equal is
+// recorded on all ordered pairs (several object-sharing views, and against the
+// types obtained by printing and re-parsing) and spec/TypesTrace.tla judges the
+// recorded matrices. The real code runs in a child process so that a stack
+// overflow or a hang of Equal is observed instead of killing the check.
 package c16
 
 import (
+	"bufio"
+	"bytes"
+	"encoding/json"
+	"fmt"
+	"io"
+	"log"
+	"os"
+	"os/exec"
+	"path/filepath"
+	"regexp"
+	"sort"
+	"strconv"
+	"strings"
+	"time"
+
+	"github.com/llir/llvm/asm"
+	"github.com/llir/llvm/ir"
+	"github.com/llir/llvm/ir/types"
+
+	"verif/harness/llvmoracle"
 	"verif/harness/mbt"
 	"verif/harness/props/reg"
+	"verif/harness/props/tyutil"
 )
 
 func init() { reg.Register("C16", Run) }
 
+type genRec struct {
+	U    string                  `json:"u"`
+	Defs map[string]*tyutil.Body `json:"defs"`
+	T    *tyutil.Term            `json:"t"`
+}
+
+type item struct {
+	U string       `json:"u"`
+	T *tyutil.Term `json:"t"`
+}
+
+// childIn is the work order of the child process.
+type childIn struct {
+	Universes map[string]tyutil.Universe `json:"universes"`
+	Items     []item                     `json:"items"`
+	From      int                        `json:"from"`   // first row to evaluate (0-based)
+	OnlyJ     int                        `json:"only_j"` // -1: all columns
+	Skip      map[string][]int           `json:"skip"`   // row -> columns known to kill the process
+}
+
+type badCall struct {
+	V   string `json:"v"`
+	J   int    `json:"j"`
+	St  string `json:"st"` // panic | timeout
+	Msg string `json:"msg"`
+}
+
+// childRow is one row written by the child (all indices 0-based).
+type childRow struct {
+	Kind     string           `json:"kind"` // "parsed" | "row"
+	I        int              `json:"i"`
+	Views    map[string][]int `json:"views,omitempty"`
+	Bad      []badCall        `json:"bad,omitempty"`
+	ParseErr string           `json:"parse_err,omitempty"`
+	Printed  string           `json:"printed,omitempty"`
+}
+
+var viewNames = []string{"ss", "sd", "ds", "ps", "sp"}
+
+// --- child: everything that calls the code under test --------------------------
+
+const callTimeout = 2 * time.Second
+
+// timedEqual evaluates x.Equal(y) in a goroutine with a deadline.
+func timedEqual(x, y types.Type, timer *time.Timer) (res bool, st, msg string) {
+	type out struct {
+		r   bool
+		msg string
+		p   bool
+	}
+	ch := make(chan out, 1)
+	go func() {
+		var o out
+		o.msg, o.p = mbt.Guard(func() { o.r = types.Equal(x, y) })
+		ch <- o
+	}()
+	if !timer.Stop() {
+		select {
+		case <-timer.C:
+		default:
+		}
+	}
+	timer.Reset(callTimeout)
+	select {
+	case o := <-ch:
+		if o.p {
+			return false, "panic", o.msg
+		}
+		return o.r, "", ""
+	case <-timer.C:
+		return false, "timeout", fmt.Sprintf("no result after %v", callTimeout)
+	}
+}
+
+// printParse prints t inside a minimal module with the library's printer and
+// parses it back with the library's parser.
+func printParse(u tyutil.Universe, t *tyutil.Term) (parsed types.Type, printed string, err error) {
+	b := tyutil.NewBuilder(u, false)
+	typ := b.Type(t)
+	m := ir.NewModule()
+	m.TypeDefs = b.TypeDefs()
+	switch t.K {
+	case "void":
+		m.NewFunc("f", typ)
+	case "label", "token", "metadata":
+		m.NewFunc("f", types.Void, ir.NewParam("", typ))
+	default:
+		m.NewFunc("f", types.Void, ir.NewParam("", types.NewPointer(typ)))
+	}
+	printed = m.String()
+	m2, err := asm.ParseString("c16.ll", printed)
+	if err != nil {
+		return nil, printed, err
+	}
+	if len(m2.Funcs) != 1 {
+		return nil, printed, fmt.Errorf("parsed module has %d functions", len(m2.Funcs))
+	}
+	f := m2.Funcs[0]
+	switch t.K {
+	case "void":
+		return f.Sig.RetType, printed, nil
+	case "label", "token", "metadata":
+		if len(f.Sig.Params) != 1 {
+			return nil, printed, fmt.Errorf("parsed function has %d parameters", len(f.Sig.Params))
+		}
+		return f.Sig.Params[0], printed, nil
+	}
+	if len(f.Sig.Params) != 1 {
+		return nil, printed, fmt.Errorf("parsed function has %d parameters", len(f.Sig.Params))
+	}
+	p, ok := f.Sig.Params[0].(*types.PointerType)
+	if !ok {
+		return nil, printed, fmt.Errorf("parsed parameter is %T, not a pointer", f.Sig.Params[0])
+	}
+	return p.ElemType, printed, nil
+}
+
+func child(path string) {
+	log.SetOutput(io.Discard)
+	var in childIn
+	if err := mbt.ReadJSON(path, &in); err != nil {
+		fmt.Fprintln(os.Stderr, "child:", err)
+		os.Exit(3)
+	}
+	w := bufio.NewWriterSize(os.Stdout, 1<<16)
+	emit := func(r childRow) {
+		b, _ := json.Marshal(r)
+		w.Write(b)
+		w.WriteByte('\n')
+		w.Flush()
+	}
+	n := len(in.Items)
+	shared := map[string]*tyutil.Builder{}
+	for u, uni := range in.Universes {
+		shared[u] = tyutil.NewBuilder(uni, false)
+	}
+	S := make([]types.Type, n) // one object per name, shared by all terms of the universe
+	D := make([]types.Type, n) // objects of its own for every term and every top-level occurrence
+	P := make([]types.Type, n) // printed and parsed back
+	for i, it := range in.Items {
+		S[i] = shared[it.U].Type(it.T)
+		D[i] = tyutil.NewBuilder(in.Universes[it.U], true).Type(it.T)
+	}
+	for i, it := range in.Items {
+		var r childRow
+		r.Kind, r.I = "parsed", i
+		var err error
+		msg, p := mbt.Guard(func() { P[i], r.Printed, err = printParse(in.Universes[it.U], it.T) })
+		switch {
+		case p:
+			r.ParseErr = "panic: " + msg
+		case err != nil:
+			r.ParseErr = "error: " + err.Error()
+		}
+		if r.ParseErr != "" {
+			P[i] = nil
+			emit(r)
+		}
+	}
+	emit(childRow{Kind: "parsed", I: -1})
+	timer := time.NewTimer(time.Hour)
+	for i := in.From; i < n; i++ {
+		skip := map[int]bool{}
+		for _, j := range in.Skip[strconv.Itoa(i)] {
+			skip[j] = true
+		}
+		r := childRow{Kind: "row", I: i, Views: map[string][]int{}}
+		for _, v := range viewNames {
+			r.Views[v] = []int{}
+		}
+		for j := 0; j < n; j++ {
+			if in.Items[j].U != in.Items[i].U || skip[j] || (in.OnlyJ >= 0 && j != in.OnlyJ) {
+				continue
+			}
+			pairs := map[string][2]types.Type{"ss": {S[i], S[j]}, "sd": {S[i], D[j]}, "ds": {D[i], S[j]}, "ps": {P[i], S[j]}, "sp": {S[i], P[j]}}
+			for _, v := range viewNames {
+				xy := pairs[v]
+				if xy[0] == nil || xy[1] == nil {
+					continue // print+parse failed for that term: reported once, by the parent
+				}
+				eq, st, msg := timedEqual(xy[0], xy[1], timer)
+				if st != "" {
+					r.Bad = append(r.Bad, badCall{V: v, J: j, St: st, Msg: msg})
+					continue
+				}
+				if eq {
+					r.Views[v] = append(r.Views[v], j)
+				}
+			}
+		}
+		emit(r)
+		if in.OnlyJ >= 0 {
+			break
+		}
+	}
+	os.Exit(0)
+}
+
+// --- parent --------------------------------------------------------------------
+
+// runChild runs the child process on the work order and returns its rows; died
+// reports that the process ended abnormally (crash, stack overflow, timeout).
+func runChild(in childIn, timeout time.Duration) (rows []childRow, died bool, diag string) {
+	f, err := os.CreateTemp("", "verif-c16-*.json")
+	if err != nil {
+		mbt.Infra("%v", err)
+	}
+	defer os.Remove(f.Name())
+	b, _ := json.Marshal(in)
+	f.Write(b)
+	f.Close()
+	exe, err := os.Executable()
+	if err != nil {
+		mbt.Infra("%v", err)
+	}
+	cmd := exec.Command("timeout", strconv.Itoa(int(timeout.Seconds())), exe, "quick")
+	cmd.Env = append(os.Environ(), "VERIF_C16_CHILD="+f.Name())
+	var so, se bytes.Buffer
+	cmd.Stdout, cmd.Stderr = &so, &se
+	err = cmd.Run()
+	sc := bufio.NewScanner(&so)
+	sc.Buffer(make([]byte, 1<<20), 1<<26)
+	for sc.Scan() {
+		var r childRow
+		if json.Unmarshal(sc.Bytes(), &r) == nil && r.Kind != "" {
+			rows = append(rows, r)
+		}
+	}
+	if err != nil {
+		d := se.String()
+		if len(d) > 600 {
+			d = d[:600]
+		}
+		return rows, true, fmt.Sprintf("%v: %s", err, d)
+	}
+	return rows, false, ""
+}
+
+// attrClass lists, for two different terms, the kind.attribute positions in
+// which they differ (path-free, so that one defect has one class).
+func attrClass(a, b *tyutil.Term) []string {
+	set := map[string]bool{}
+	var walk func(a, b *tyutil.Term)
+	walk = func(a, b *tyutil.Term) {
+		if a.K != b.K {
+			ks := []string{a.K, b.K}
+			sort.Strings(ks)
+			set["kind:"+ks[0]+"/"+ks[1]] = true
+			return
+		}
+		add := func(c bool, s string) {
+			if c {
+				set[a.K+"."+s] = true
+			}
+		}
+		switch a.K {
+		case "int":
+			add(a.W != b.W, "width")
+		case "float":
+			add(a.FK != b.FK, "kind")
+		case "ptr":
+			add(a.AS != b.AS, "addrspace")
+			walk(a.E, b.E)
+		case "vec":
+			add(a.SC != b.SC, "scalable")
+			add(a.N != b.N, "len")
+			walk(a.E, b.E)
+		case "arr":
+			add(a.N != b.N, "len")
+			walk(a.E, b.E)
+		case "struct":
+			add(a.PK != b.PK, "packed")
+			if len(a.FS) != len(b.FS) {
+				add(true, "fieldcount")
+				return
+			}
+			for i := range a.FS {
+				walk(a.FS[i], b.FS[i])
+			}
+		case "named":
+			add(a.NM != b.NM, "name")
+		case "func":
+			add(a.VA != b.VA, "variadic")
+			walk(a.Ret, b.Ret)
+			if len(a.PS) != len(b.PS) {
+				add(true, "paramcount")
+				return
+			}
+			for i := range a.PS {
+				walk(a.PS[i], b.PS[i])
+			}
+		}
+	}
+	walk(a, b)
+	var out []string
+	for k := range set {
+		out = append(out, k)
+	}
+	sort.Strings(out)
+	return out
+}
+
+var viewWhat = map[string]string{
+	"ss": "both sides share one object per type name",
+	"sd": "right side built with separate objects per type name",
+	"ds": "left side built with separate objects per type name",
+	"ps": "left side printed and parsed back",
+	"sp": "right side printed and parsed back",
+}
+
+// declText renders a declaration that uses t, for llvm-as (independent renderer).
+func declText(i int, t *tyutil.Term) string {
+	switch t.K {
+	case "void":
+		return fmt.Sprintf("declare void @f%d()\n", i)
+	case "label":
+		return fmt.Sprintf("declare void @f%d(label)\n", i)
+	case "token":
+		return "declare token @llvm.call.preallocated.setup(i32)\n"
+	case "metadata":
+		return "declare void @llvm.dbg.declare(metadata, metadata, metadata)\n"
+	}
+	return fmt.Sprintf("declare void @f%d(%s*)\n", i, t.LL())
+}
+
+// validate asks llvm-as whether every term is an LLVM type; rejected terms are dropped.
+func validate(rep *mbt.Report, unis map[string]tyutil.Universe, items []item) []item {
+	var keep []item
+	discards := 0
+	byU := map[string][]int{}
+	for i, it := range items {
+		byU[it.U] = append(byU[it.U], i)
+	}
+	ok := make([]bool, len(items))
+	for u, idx := range byU {
+		var b strings.Builder
+		b.WriteString(unis[u].Defs())
+		seen := map[string]bool{}
+		for _, i := range idx {
+			d := declText(i, items[i].T)
+			if !seen[d] {
+				b.WriteString(d)
+				seen[d] = true
+			}
+		}
+		if acc, _ := llvmoracle.Accepts(b.String()); acc {
+			for _, i := range idx {
+				ok[i] = true
+			}
+			continue
+		}
+		llvmoracle.Parallel(len(idx), func(k int) {
+			i := idx[k]
+			acc, _ := llvmoracle.Accepts(unis[u].Defs() + declText(i, items[i].T))
+			ok[i] = acc
+		})
+	}
+	for i, it := range items {
+		if ok[i] {
+			keep = append(keep, it)
+		} else {
+			discards++
+			if discards <= 5 {
+				rep.Note("spec/LLVM disagreement: llvm-as rejects generated type %s (discarded)", it.T.LL())
+			}
+		}
+	}
+	rep.Extra["llvm_validated_terms"] = len(keep)
+	rep.Extra["llvm_discards"] = discards
+	if discards*50 > len(items) {
+		mbt.Infra("llvm-as rejects %d of %d generated types: WellFormed of Types.tla disagrees with LLVM", discards, len(items))
+	}
+	return keep
+}
+
+var reBad = regexp.MustCompile(`<<"BADPAIR", "([a-z]+)", (\d+), (\d+), (TRUE|FALSE)>>`)
+
+// record runs the real code on the items and lets TLC judge the recording.
+func record(rep *mbt.Report, unis map[string]tyutil.Universe, items []item, tier string) {
+	n := len(items)
+	in := childIn{Universes: unis, Items: items, OnlyJ: -1, Skip: map[string][]int{}}
+	rows := make([]*childRow, n)
+	parseErr := map[int]childRow{}
+	for guard := 0; ; guard++ {
+		got, died, diag := runChild(in, 15*time.Minute)
+		for k := range got {
+			r := got[k]
+			switch {
+			case r.Kind == "parsed" && r.I >= 0:
+				parseErr[r.I] = r
+			case r.Kind == "row":
+				rows[r.I] = &got[k]
+			}
+		}
+		if !died {
+			break
+		}
+		// first missing row: find the columns that kill the process, one child per column
+		i := in.From
+		for i < n && rows[i] != nil {
+			i++
+		}
+		if i >= n || guard > 20 {
+			mbt.Infra("child process died without a missing row: %s", diag)
+		}
+		rep.Note("the process evaluating Equal died in row %d (%s); isolating the pair", i, mbt.Truncate(diag, 200))
+		var killers []int
+		merged := &childRow{Kind: "row", I: i, Views: map[string][]int{}}
+		for _, v := range viewNames {
+			merged.Views[v] = []int{}
+		}
+		for j := 0; j < n; j++ {
+			if items[j].U != items[i].U {
+				continue
+			}
+			one := in
+			one.From, one.OnlyJ = i, j
+			g, d, dg := runChild(one, 60*time.Second)
+			if d {
+				killers = append(killers, j)
+				rep.Fail(mbt.Failure{Signature: "C16|Equal|no result (process died: stack overflow, crash or hang)|kinds=" + items[i].T.K + "," + items[j].T.K,
+					What: fmt.Sprintf("types.Equal(%s, %s) in universe %s does not return: %s", items[i].T.LL(), items[j].T.LL(), items[i].U, mbt.Truncate(dg, 300)),
+					Case: map[string]interface{}{"u": items[i].U, "defs": unis[items[i].U], "a": items[i].T, "b": items[j].T}})
+				continue
+			}
+			for _, r := range g {
+				if r.Kind == "row" {
+					for v, js := range r.Views {
+						merged.Views[v] = append(merged.Views[v], js...)
+					}
+					merged.Bad = append(merged.Bad, r.Bad...)
+				}
+			}
+		}
+		rows[i] = merged
+		in.Skip[strconv.Itoa(i)] = killers
+		in.From = i + 1
+		if in.From >= n {
+			break
+		}
+	}
+	// failures seen by the child itself
+	for i, r := range parseErr {
+		rep.Fail(mbt.Failure{Signature: "C16|print+parse|" + strings.SplitN(r.ParseErr, ":", 2)[0] + "|kind=" + items[i].T.K,
+			What: fmt.Sprintf("type %s (universe %s) is not preserved by print+parse: %s; printed module:\n%s", items[i].T.LL(), items[i].U, mbt.Truncate(r.ParseErr, 300), r.Printed),
+			Case: map[string]interface{}{"u": items[i].U, "defs": unis[items[i].U], "a": items[i].T, "b": items[i].T}})
+	}
+	type recRow struct {
+		U     string           `json:"u"`
+		T     *tyutil.Term     `json:"t"`
+		Views map[string][]int `json:"views"`
+	}
+	recs := make([]recRow, n)
+	pairs := 0
+	perU := map[string]int{}
+	for _, it := range items {
+		perU[it.U]++
+	}
+	for i := range items {
+		r := rows[i]
+		if r == nil {
+			mbt.Infra("row %d missing from the recording", i)
+		}
+		recs[i] = recRow{U: items[i].U, T: items[i].T, Views: map[string][]int{}}
+		for _, v := range viewNames {
+			js := []int{}
+			for _, j := range r.Views[v] {
+				js = append(js, j+1)
+			}
+			recs[i].Views[v] = js
+		}
+		for _, b := range r.Bad {
+			rep.Fail(mbt.Failure{Signature: "C16|Equal|" + b.St + "|kinds=" + items[i].T.K + "," + items[b.J].T.K,
+				What: fmt.Sprintf("types.Equal(%s, %s) [%s] in universe %s: %s %s", items[i].T.LL(), items[b.J].T.LL(), viewWhat[b.V], items[i].U, b.St, mbt.Truncate(b.Msg, 200)),
+				Case: map[string]interface{}{"u": items[i].U, "defs": unis[items[i].U], "a": items[i].T, "b": items[b.J].T}})
+		}
+		pairs += perU[items[i].U]
+	}
+	for i := range items {
+		for j := range items {
+			if items[i].U == items[j].U {
+				rep.Count(items[i].U+"|"+items[i].T.Key()+"|"+items[j].T.Key(), i != j)
+			}
+		}
+	}
+	// views of terms whose print+parse failed are empty; do not let TLC flag them a second time
+	for i := range parseErr {
+		recs[i].Views["ps"] = recs[i].Views["ss"]
+		for k := range recs {
+			if recs[k].U == recs[i].U {
+				if contains(recs[k].Views["ss"], i+1) {
+					recs[k].Views["sp"] = append(recs[k].Views["sp"], i+1)
+				}
+			}
+		}
+	}
+	t := mbt.MustTLC(mbt.TLCOpts{Spec: "TypesTrace", Cfg: "TypesTrace.cfg", Workers: 8, Continue: true,
+		Data: map[string][]byte{"types_rec.ndjson": mbt.NDJSONBytes(recs)}, Timeout: 20 * time.Minute})
+	defer t.Cleanup()
+	rep.AddTLC(t)
+	if t.Distinct != int64(n)+1 {
+		mbt.Infra("TypesTrace consumed %d rows of %d:\n%s", t.Distinct-1, n, mbt.Truncate(t.Output, 2000))
+	}
+	for _, v := range t.Violated {
+		if v != "RowOK" {
+			mbt.Infra("TypesTrace: unexpected violation %s", v)
+		}
+	}
+	rep.TracesValidated += n
+	rep.Extra["recorded_pairs_"+tier] = pairs * len(viewNames)
+	for _, m := range reBad.FindAllStringSubmatch(t.Output, -1) {
+		v := m[1]
+		i, _ := strconv.Atoi(m[2])
+		j, _ := strconv.Atoi(m[3])
+		want := m[4] == "TRUE"
+		a, b := items[i-1], items[j-1]
+		var sig, what string
+		if want {
+			sig = fmt.Sprintf("C16|Equal|same type reported unequal|%s|kind=%s", viewClass(v), a.T.K)
+			what = fmt.Sprintf("types.Equal(%s, %s) = false in universe %s (%s), but both denote the same LLVM type", a.T.LL(), b.T.LL(), a.U, viewWhat[v])
+		} else {
+			sig = fmt.Sprintf("C16|Equal|different types reported equal|%s|differ in %s", viewClass(v), strings.Join(attrClass(a.T, b.T), "+"))
+			what = fmt.Sprintf("types.Equal(%s, %s) = true in universe %s (%s), but the types differ in %s", a.T.LL(), b.T.LL(), a.U, viewWhat[v], strings.Join(attrClass(a.T, b.T), "+"))
+		}
+		rep.Fail(mbt.Failure{Signature: sig, What: what, Case: map[string]interface{}{"u": a.U, "defs": unis[a.U], "a": a.T, "b": b.T, "view": v}})
+	}
+}
+
+func viewClass(v string) string {
+	switch v {
+	case "ss":
+		return "shared objects"
+	case "sd", "ds":
+		return "separate objects per name"
+	}
+	return "after print+parse"
+}
+
+func contains(s []int, x int) bool {
+	for _, y := range s {
+		if y == x {
+			return true
+		}
+	}
+	return false
+}
+
 // Run is the C16 check.
-func Run(tier, replay string) { mbt.Infra("check C16 is not built yet") }
+func Run(tier, replay string) {
+	if p := os.Getenv("VERIF_C16_CHILD"); p != "" {
+		child(p)
+	}
+	log.SetOutput(io.Discard)
+	rep := mbt.NewReport("C16", tier, "model_checking")
+	rep.Rule = "ordered pairs of distinct type terms of one universe on which the real types.Equal was recorded (5 views: shared / separate Go objects per type name, printed and parsed back on either side) and judged by TLC against the reference identity TypeEq"
+	llvmoracle.Require()
+
+	if replay != "" {
+		runReplay(rep, replay)
+		rep.Finish()
+	}
+
+	big := "FALSE"
+	if tier == "thorough" {
+		big = "TRUE"
+	}
+	// (S) the reference identity satisfies the laws the property lists
+	t := mbt.MustTLC(mbt.TLCOpts{Spec: "TypesEq", Cfg: "TypesEq.cfg", Consts: map[string]string{"Big": big}, Timeout: 20 * time.Minute})
+	if len(t.Violated) > 0 || t.Assumption {
+		mbt.Infra("TypeEq of Types.tla violates %v: specification error\n%s", t.Violated, mbt.Truncate(t.Output, 3000))
+	}
+	rep.AddTLC(t)
+	t.Cleanup()
+	// the switchable deviation (identified structs compared by fields) must be caught by the laws
+	t = mbt.MustTLC(mbt.TLCOpts{Spec: "TypesEq", Cfg: "TypesEqDeviation.cfg"})
+	if !containsStr(t.Violated, "OneAttribute") && !containsStr(t.Violated, "TermIdentity") {
+		mbt.Infra("deviation NamedByFields is not caught by the laws of TypesEq.tla (violated: %v)", t.Violated)
+	}
+	t.Cleanup()
+	t = mbt.MustTLC(mbt.TLCOpts{Spec: "TypesEq", Cfg: "TypesEqVacuity.cfg", Continue: true})
+	if !containsStr(t.Violated, "NeverEqualDistinctObjects") || !containsStr(t.Violated, "UnfoldingNeverCoarser") {
+		mbt.Infra("vacuity guard of TypesEq.tla: %v", t.Violated)
+	}
+	t.Cleanup()
+
+	// (G) generated terms
+	t = mbt.MustTLC(mbt.TLCOpts{Spec: "TypesEq", Cfg: "TypesEqGen.cfg", Workers: 1, Consts: map[string]string{"Big": big}})
+	if len(t.Violated) > 0 {
+		mbt.Infra("TypesEqGen: %v\n%s", t.Violated, mbt.Truncate(t.Output, 3000))
+	}
+	recs, err := mbt.ReadNDJSON[genRec](filepath.Join(t.Dir, "types_terms.ndjson"))
+	if err != nil {
+		mbt.Infra("%v", err)
+	}
+	rep.AddTLC(t)
+	t.Cleanup()
+	unis := map[string]tyutil.Universe{}
+	var items []item
+	for _, r := range recs {
+		if r.Defs != nil {
+			unis[r.U] = tyutil.Universe(r.Defs)
+		} else if r.T != nil {
+			items = append(items, item{U: r.U, T: r.T})
+		}
+	}
+	if len(items) < 100 || len(unis) < 3 {
+		mbt.Infra("generator produced %d terms in %d universes", len(items), len(unis))
+	}
+	rep.Extra["generated_terms"] = len(items)
+	items = validate(rep, unis, items)
+	for k := 0; k < len(items); k += len(items)/5 + 1 {
+		rep.Sample(map[string]interface{}{"universe": items[k].U, "type": items[k].T.LL()})
+	}
+
+	// (T) record the real Equal, judged by TLC
+	record(rep, unis, items, tier)
+
+	rep.Exhaustive = false
+	rep.Assumptions = []string{
+		"TLC evaluates TypeEq on the deserialised recording correctly; JSON transport of terms is faithful (tyutil)",
+		"the term sets are the ones Gen of TypesEq.tla defines (leaves, one-level constructions, deep seeds and their one-attribute variants) over three universes; types outside them are not exercised",
+		"llvm-as 14 accepted every recorded term as a type (WellFormed of Types.tla agrees with LLVM on the generated set)",
+	}
+	rep.Finish()
+}
+
+func containsStr(s []string, x string) bool {
+	for _, y := range s {
+		if y == x {
+			return true
+		}
+	}
+	return false
+}
+
+func runReplay(rep *mbt.Report, path string) {
+	type rf struct {
+		Failures []struct {
+			Case struct {
+				U    string                  `json:"u"`
+				Defs map[string]*tyutil.Body `json:"defs"`
+				A    *tyutil.Term            `json:"a"`
+				B    *tyutil.Term            `json:"b"`
+			} `json:"case"`
+		} `json:"failures"`
+	}
+	var one rf
+	if e := mbt.ReadJSON(path, &one); e != nil {
+		mbt.Infra("replay %s: %v", path, e)
+	}
+	unis := map[string]tyutil.Universe{}
+	var items []item
+	seen := map[string]bool{}
+	for k, f := range one.Failures {
+		if f.Case.A == nil || f.Case.B == nil {
+			continue
+		}
+		u := fmt.Sprintf("%s#%d", f.Case.U, k)
+		unis[u] = tyutil.Universe(f.Case.Defs)
+		for _, t := range []*tyutil.Term{f.Case.A, f.Case.B} {
+			if !seen[u+t.Key()] {
+				seen[u+t.Key()] = true
+				items = append(items, item{U: u, T: t})
+			}
+		}
+	}
+	if len(items) == 0 {
+		mbt.Infra("replay %s: no case", path)
+	}
+	record(rep, unis, items, "replay")
+}
